@@ -254,7 +254,13 @@ def np_max_seg(I, args, kw):
     raise Unsupported("np.max")
 
 
+def _np_max(I, args, kw):
+    from .arraymodel import np_max
+    return np_max(I, args, kw)
+
+
 EXT = {
+    "numpy.max": _np_max,
     "numpy.nonzero": np_nonzero, "numpy.ones_like": np_ones_like, "numpy.sum": np_sum, "numpy.where": np_where,
     "numpy.max.other": np_max_seg,
 }
@@ -287,6 +293,9 @@ def rp_fun(ctx, SegV):
         ctx.assume(forall([k, t, n, s], z3.Not(rp(k, t, n, s) == VNone)), "measure.notnone")
         ctx.assume(forall([t, n, t2, n2], IMP(z3.Not(ov(t, n, t2, n2)), io(t, n, t2, n2) == VInt(0))), "measure.iou0")
         ctx.assume(forall([t, n, t2, n2], z3.Not(io(t, n, t2, n2) == VNone)), "measure.notnone")
+        # two masks overlap only if some pixel position belongs to both
+        wov = ctx.fresh_fun("overlap_at", Int, Int, Int, Int, Pix)
+        ctx.assume(forall([t, n, t2, n2], IMP(ov(t, n, t2, n2), AND(SegV(t, wov(t, n, t2, n2)) == n, SegV(t2, wov(t, n, t2, n2)) == n2))), "measure.overlap")
         vs[name] = (SegV, rp, io, ov)
     return vs[name]
 
